@@ -27,6 +27,23 @@ LAST_RUN: T.Dict[str, T.Any] = {"renames_undone": [], "dropped": []}
 _BASELINE: T.Optional[T.Dict[str, T.Dict[str, str]]] = None
 
 
+def local_names(fd: ast.AST) -> T.List[str]:
+    """Parameters, then the locals in the order the alpha-normalisation of body_hash numbers them."""
+    body = list(fd.body)            # type: ignore[attr-defined]
+    if body and isinstance(body[0], ast.Expr) and isinstance(body[0].value, ast.Constant) and isinstance(body[0].value.value, str):
+        body = body[1:]
+    out: T.List[str] = []
+    args = fd.args                  # type: ignore[attr-defined]
+    for a in args.posonlyargs + args.args + args.kwonlyargs:
+        if a.arg not in out:
+            out.append(a.arg)
+    for b in body:
+        for n in ast.walk(b):
+            if isinstance(n, ast.Name) and isinstance(n.ctx, (ast.Store, ast.Del)) and n.id not in out:
+                out.append(n.id)
+    return out
+
+
 def body_hash(fd: ast.AST) -> str:
     """Hash of a function body up to the names of its parameters and locals (and its docstring)."""
     import hashlib
@@ -69,6 +86,18 @@ def baseline_signatures() -> T.Dict[str, T.Dict[str, T.List[str]]]:
         with open(os.path.join(os.path.dirname(os.path.abspath(__file__)), "baseline_signatures.json")) as fobj:
             _BASELINE_SIGS = json.load(fobj)
     return _BASELINE_SIGS
+
+
+_BASELINE_NAMES: T.Optional[T.Dict[str, T.Dict[str, T.List[str]]]] = None
+
+
+def baseline_names() -> T.Dict[str, T.Dict[str, T.List[str]]]:
+    """Parameter and local names of the pinned tree's functions in numbering order (sa/baseline_names.json)."""
+    global _BASELINE_NAMES
+    if _BASELINE_NAMES is None:
+        with open(os.path.join(os.path.dirname(os.path.abspath(__file__)), "baseline_names.json")) as fobj:
+            _BASELINE_NAMES = json.load(fobj)
+    return _BASELINE_NAMES
 
 
 # --------------------------------------------------------------------------------------------- helpers
@@ -950,6 +979,48 @@ def undo_renames(trees: T.Dict[str, ast.Module]) -> T.List[str]:
     return done
 
 
+def undo_local_renames(trees: T.Dict[str, ast.Module]) -> T.List[str]:
+    """A function whose body equals the pinned one up to the names of parameters and locals gets the pinned names back
+    (the two name lists correspond position by position); keyword arguments at its call sites follow the parameters."""
+    done: T.List[str] = []
+    for m, tree in trees.items():
+        known, names_tab = baseline().get(m, {}), baseline_names().get(m, {})
+        if not known:
+            continue
+        for q, fd in _qualnames(tree).items():
+            if not known.get(q) or q not in names_tab or known[q] != body_hash(fd):
+                continue
+            cur, old = local_names(fd), names_tab[q]
+            if cur == old or len(cur) != len(old):
+                continue
+            ren = {c: o for c, o in zip(cur, old) if c != o}
+            for n in ast.walk(fd):
+                if isinstance(n, ast.Name) and n.id in ren:
+                    n.id = ren[n.id]
+                elif isinstance(n, ast.arg) and n.arg in ren:
+                    n.arg = ren[n.arg]
+            a = fd.args
+            params = {x.arg for x in a.posonlyargs + a.args + a.kwonlyargs}
+            pren = {c: o for c, o in ren.items() if o in params}
+            fname = q.rpartition(".")[2]
+            is_method = "." in q
+            if pren:
+                for n2, t in trees.items():
+                    mods, _names = _module_aliases(t)
+                    for c in ast.walk(t):
+                        if not isinstance(c, ast.Call):
+                            continue
+                        f = c.func
+                        hit = (isinstance(f, ast.Name) and f.id == fname and n2 == m and not is_method) or \
+                            (isinstance(f, ast.Attribute) and f.attr == fname and (is_method or (isinstance(f.value, ast.Name) and mods.get(f.value.id) == m)))
+                        if hit:
+                            for kw in c.keywords:
+                                if kw.arg in pren:
+                                    kw.arg = pren[kw.arg]
+            done.append(f"{m}.{q}: {', '.join(f'{c}->{o}' for c, o in sorted(ren.items()))}")
+    return done
+
+
 def _is_ref(e: ast.AST) -> bool:
     """A reference to a module / function / attribute chain, or a tuple of such (no calls, no computations)."""
     if isinstance(e, ast.Name):
@@ -1122,6 +1193,7 @@ def normalise_program(trees: T.Dict[str, ast.Module]) -> T.Dict[str, int]:
     if os.environ.get("VERIF_NO_NORMALISE"):
         return out
     LAST_RUN["renames_undone"] = undo_renames(trees)
+    LAST_RUN["local_renames_undone"] = undo_local_renames(trees)
     LAST_RUN["dict_calls"] = sum(canonical_dict_calls(t) for m, t in trees.items() if baseline().get(m))
     n_disp = 0
     for m, t in trees.items():
